@@ -75,6 +75,14 @@ CHECKS["C10"] = dict(level="exploration", ref="DESIGN.md §4 C10",
     note="Trusted: reference is the original instance of the same library; pe and far-from-saturation SI columns are ill-conditioned and handled as documented in the module. Known findings KF19 (14-digit text vs unbuffered pH) and KF20 (isotopes in SOLUTION_RAW cannot be read back).",
     technique="deterministic simulation: seeded histories with checkpoint at a drawn boundary, crash (instance abandoned) and restart from durable text under read chunking; original instance as reference; fixed-point check")
 
+CHECKS["C14"] = dict(level="exploration", ref="DESIGN.md §4 C14",
+    text="Seeded search over histories of store operations (definitions with ranges, redefinition, SAVE after a calculation, COPY of a kind or a whole cell to a number or a range, "
+         "DELETE of kinds / numbers / ranges / cells / everything, *_MODIFY, MIX, RUN_CELLS; 1-4 simulations per call) checked after every call against an executable reference "
+         "map (kind, number) -> content id, read from DUMP -all by an independent RAW reader: key set, copies content-identical, ranges uniform, untouched entries unchanged, "
+         "redefinitions effective, modified quantities read back, component list covers the stored reactants; a second instance replays the history with RUN_CELLS replaced by explicit USE/SAVE.",
+    note="No schedule or fault dimension: what the framework contributes here is the seeded history search, the reference model, shrinking and replay (stated honestly in DESIGN). Trusted: the RAW reader's notion of content (workspace sections excluded).",
+    technique="deterministic simulation: seeded operation histories vs executable reference model (keyed store), recorded-history checking after every call")
+
 NA = {
     "C01": "pure function of (input, database): deciding it needs an independent thermodynamic evaluator, no schedule, clock, fault or call history takes part",
     "C03": "pure function of the input assemblage; the only fault-like path (solver retry ladder) is exercised under C02",
@@ -87,7 +95,7 @@ NA = {
     "C19": "pure function of the gas-phase input",
     "C20": "pure function of the surface input",
 }
-PENDING = {k: "claimed in DESIGN.md; its check is still under construction in this build phase and is not registered yet" for k in ("C02","C14")}
+PENDING = {k: "claimed in DESIGN.md; its check is still under construction in this build phase and is not registered yet" for k in ("C02",)}
 
 
 def main():
